@@ -479,3 +479,312 @@ Definition is_kd (e : event) : bool :=
 
 (* true iff a kernel or distance evaluation happens in the run *)
 Definition evaluates (T : tables) (r : request) : bool := existsb is_kd (fst (exec T r)).
+
+(* ================================================================== bodies read from the source
+   Wave 2.  translate/t_val.py also emits, into coq/gen/Validate.v,
+     gen_predicates   the body of operator()(T v) of every predicate object of predicates.hpp
+                      (comparison operator and operand of every conjunct),
+     gen_pred_uses    every use  parameters[k].checked().satisfies(P<T>(args))  in source order,
+     gen_container    the bodies of the members of stichwort::ParametersSet / Parameter that build,
+                      check, merge and read the parameter set (parameter.hpp).
+   The walker above keeps its own hand-written counterparts (pred / pred_holds, ps_add, pm_merge,
+   the duplicate test, wrong_type_vs, pm_lookup); Validate_Proof_Bodies.v proves that they agree with
+   the interpretation, defined here, of the GENERATED bodies.  No proofs in this file. *)
+
+(* ------------------------------------------------------------------ predicates.hpp
+   bool operator()(T v) const { return v OP a && v OP b; }  : a conjunction of comparisons of v *)
+Inductive cmpop := OpGt | OpGe | OpLt | OpLe.
+
+Inductive operand :=
+| OField (i : nat)        (* a member initialised from the i-th constructor argument (lower, upper) *)
+| OInt (z : Z)            (* integer literal *)
+| OReal (q : Q)           (* floating literal (its exact binary64 value) *)
+| OEpsilon.               (* std::numeric_limits<T>::epsilon(): 2^-52 for double, 0 for an integral T *)
+
+(* fixed numbering (translate/t_val.py PRED_IDS): 0 Positivity, 1 NonNegativity, 2 InRange, 3 InClosedRange *)
+Record pbody := { pb_id : nat; pb_nargs : nat; pb_conj : list (cmpop * operand) }.
+
+Definition dbl_epsilon : Q := 1 # 4503599627370496.       (* 2^-52 *)
+
+(* value of an operand for a predicate over type ty whose constructor arguments (already converted
+   to T by the constructor) are args.  A literal is compared after the usual arithmetic conversions:
+   exact in every case that can be written here. *)
+Definition operand_Q (ty : vtype) (args : list Q) (o : operand) : Q :=
+  match o with
+  | OField i => nth i args 0%Q
+  | OInt z => inject_Z z
+  | OReal q => q
+  | OEpsilon => match ty with TScalar => dbl_epsilon | _ => 0%Q end
+  end.
+
+Definition cmp_holds (op : cmpop) (x b : Q) : bool :=
+  match op with
+  | OpGt => Qltb b x | OpGe => Qle_bool b x | OpLt => Qltb x b | OpLe => Qle_bool x b
+  end.
+
+(* the body of operator() applied to the value x *)
+Definition body_holds (ty : vtype) (args : list Q) (conj : list (cmpop * operand)) (x : Q) : bool :=
+  forallb (fun c => cmp_holds (fst c) x (operand_Q ty args (snd c))) conj.
+
+(* the predicate object P<ty>(args) as the walker's `pred` (one optional bound on each side) *)
+Definition operand_bexpr (ty : vtype) (args : list bexpr) (o : operand) : option bexpr :=
+  match o with
+  | OField i => nth_error args i
+  | OInt z => Some (BInt z)
+  | OReal q => match ty with TScalar => Some (BReal q) | _ => None end
+  | OEpsilon => Some (match ty with TScalar => BReal dbl_epsilon | _ => BInt 0 end)
+  end.
+
+Definition strict_of (op : cmpop) : bool := match op with OpGt | OpLt => true | _ => false end.
+Definition is_lower (op : cmpop) : bool := match op with OpGt | OpGe => true | _ => false end.
+
+Fixpoint instantiate (ty : vtype) (args : list bexpr) (conj : list (cmpop * operand)) (acc : pred)
+  : option pred :=
+  match conj with
+  | [] => Some acc
+  | (op, o) :: rest =>
+      match operand_bexpr ty args o with
+      | None => None
+      | Some b =>
+          if is_lower op then
+            match p_lo acc with
+            | Some _ => None
+            | None => instantiate ty args rest {| p_lo := Some (strict_of op, b); p_hi := p_hi acc |}
+            end
+          else
+            match p_hi acc with
+            | Some _ => None
+            | None => instantiate ty args rest {| p_lo := p_lo acc; p_hi := Some (strict_of op, b) |}
+            end
+      end
+  end.
+
+Definition no_pred : pred := {| p_lo := None; p_hi := None |}.
+
+(* parameters[pu_kw].checked().satisfies(P<pu_ty>(pu_args)) with P = predicate number pu_pred *)
+Record pred_use := { pu_pred : nat; pu_kw : kwid; pu_ty : vtype; pu_args : list bexpr }.
+
+Definition find_pbody (ps : list pbody) (id : nat) : option pbody :=
+  find (fun p => Nat.eqb (pb_id p) id) ps.
+
+Definition check_of_use (ps : list pbody) (u : pred_use) : option check :=
+  match find_pbody ps (pu_pred u) with
+  | None => None
+  | Some pb =>
+      if Nat.eqb (length (pu_args u)) (pb_nargs pb) then
+        match instantiate (pu_ty u) (pu_args u) (pb_conj pb) no_pred with
+        | Some p => Some {| c_kw := pu_kw u; c_ty := pu_ty u; c_pred := p |}
+        | None => None
+        end
+      else None
+  end.
+
+(* every check of a table, in the order the translator meets them: the stages of embed(), then
+   validate() and embed() of every method *)
+Definition step_checks (l : list step) : list check :=
+  flat_map (fun s => match snd s with BCheck c => [c] | _ => [] end) l.
+Definition stage_checks (l : list stage) : list check :=
+  flat_map (fun s => match s with SCheck c => [c] | _ => [] end) l.
+Definition checks_of (T : tables) : list check :=
+  stage_checks (t_stages T) ++
+  flat_map (fun m => step_checks (m_validate m) ++ step_checks (m_embed m)) (t_methods T).
+
+(* ------------------------------------------------------------------ stichwort/parameter.hpp
+   A small statement language for the bodies of ParametersSet::check / checkTypes / add / merge /
+   operator[] and the three functions that make a set out of parameters.  std::map<name, Parameter>
+   is the association list pmap (pmap[k] = v is pm_set, count / find is pm_mem / pm_lookup); a
+   range-for visits the entries in list order (the C++ visits them in the order of the names: no
+   body below depends on the order, see Validate_Proof_Bodies.v). *)
+Inductive cwho := WThis | WArg.      (* this->pmap  /  the pmap of the argument (pg, reference) *)
+Inductive ckey := KParam | KEach.    (* p.name() or name  /  each.first *)
+
+Inductive ccond :=
+| CcNot (c : ccond)
+| CcAnd (a b : ccond)                (* && : the right operand is evaluated only if the left holds *)
+| CcDupsEmpty                        (* dups.empty() *)
+| CcHas (w : cwho) (k : ckey)        (* w.pmap.count(k) / w.pmap.find(k) != w.pmap.end() *)
+| CcSameType.                        (* each.second.hasSameTypeAs(it->second), it = argument.pmap.find(each.first) *)
+
+Inductive cstmt :=
+| CsSkip
+| CsSeq (a b : cstmt)
+| CsIf (c : ccond) (t e : cstmt)
+| CsThrow (e : sw_exc)
+| CsPushDup (k : ckey)               (* dups.push_back(k) *)
+| CsAssign (k : ckey)                (* pmap[k] = p  /  pmap[each.first] = each.second *)
+| CsForEach (w : cwho) (body : cstmt)  (* for (auto each : w.pmap) body *)
+| CsReturn                           (* return; *)
+| CsReturnFound (k : ckey).          (* return it->second, it = pmap.find(k) *)
+
+Record cenv := {
+  ce_key : option kwid;              (* p.name() / name *)
+  ce_val : option value;             (* the parameter p itself *)
+  ce_argmap : pmap;                  (* pg.pmap / reference.pmap *)
+  ce_each : option (kwid * value)    (* the loop variable *)
+}.
+
+Inductive cout :=
+| CNormal (s : pset)
+| CReturned (s : pset) (v : option value)
+| CThrown (e : sw_exc)
+| CStuck.                            (* the body does something this language gives no meaning to *)
+
+Definition key_of (E : cenv) (k : ckey) : option kwid :=
+  match k with KParam => ce_key E | KEach => option_map fst (ce_each E) end.
+Definition val_of (E : cenv) (k : ckey) : option value :=
+  match k with KParam => ce_val E | KEach => option_map snd (ce_each E) end.
+Definition map_of (s : pset) (E : cenv) (w : cwho) : pmap :=
+  match w with WThis => ps_map s | WArg => ce_argmap E end.
+
+Fixpoint eval_ccond (s : pset) (E : cenv) (c : ccond) : option bool :=
+  match c with
+  | CcNot a => option_map negb (eval_ccond s E a)
+  | CcAnd a b =>
+      match eval_ccond s E a with
+      | Some true => eval_ccond s E b
+      | Some false => Some false
+      | None => None
+      end
+  | CcDupsEmpty => Some (match ps_dups s with [] => true | _ :: _ => false end)
+  | CcHas w k => option_map (fun key => pm_mem key (map_of s E w)) (key_of E k)
+  | CcSameType =>
+      match ce_each E with
+      | Some (k, v) =>
+          match pm_lookup k (ce_argmap E) with
+          | Some dv => Some (vtype_eqb (type_of v) (type_of dv))
+          | None => None               (* it == end(): dereferencing it has no meaning *)
+          end
+      | None => None
+      end
+  end.
+
+Definition with_each (E : cenv) (kv : kwid * value) : cenv :=
+  {| ce_key := ce_key E; ce_val := ce_val E; ce_argmap := ce_argmap E; ce_each := Some kv |}.
+
+(* for (auto each : l) body *)
+Fixpoint foreach_loop (body : pset -> kwid * value -> cout) (l : pmap) (s : pset) : cout :=
+  match l with
+  | [] => CNormal s
+  | kv :: rest =>
+      match body s kv with
+      | CNormal s' => foreach_loop body rest s'
+      | o => o
+      end
+  end.
+
+Fixpoint run_cstmt (st : cstmt) (s : pset) (E : cenv) : cout :=
+  match st with
+  | CsSkip => CNormal s
+  | CsSeq a b => match run_cstmt a s E with CNormal s' => run_cstmt b s' E | o => o end
+  | CsIf c t e =>
+      match eval_ccond s E c with
+      | Some true => run_cstmt t s E
+      | Some false => run_cstmt e s E
+      | None => CStuck
+      end
+  | CsThrow e => CThrown e
+  | CsPushDup k =>
+      match key_of E k with
+      | Some key => CNormal {| ps_map := ps_map s; ps_dups := ps_dups s ++ [key] |}
+      | None => CStuck
+      end
+  | CsAssign k =>
+      match key_of E k, val_of E k with
+      | Some key, Some v => CNormal {| ps_map := pm_set key v (ps_map s); ps_dups := ps_dups s |}
+      | _, _ => CStuck
+      end
+  | CsForEach w body =>
+      foreach_loop (fun s0 kv => run_cstmt body s0 (with_each E kv)) (map_of s E w) s
+  | CsReturn => CReturned s None
+  | CsReturnFound k =>
+      match key_of E k with
+      | Some key => match pm_lookup key (ps_map s) with
+                    | Some v => CReturned s (Some v)
+                    | None => CStuck
+                    end
+      | None => CStuck
+      end
+  end.
+
+(* the functions that make a set out of parameters: a sequence of calls on a set *)
+Inductive cinit := InitEmpty | InitThis.   (* ParametersSet pg;  /  ParametersSet pg = *this; *)
+Inductive carg := AThis | AParam.          (* *this (a Parameter)  /  the argument p *)
+Inductive ccall :=
+| CallAdd (a : carg)                       (* pg.add(a) *)
+| CallMergeSetOf (a : carg).               (* pg.merge(a): a converted to a set first *)
+
+Record container := {
+  ct_check : cstmt;                        (* void check() *)
+  ct_check_types : cstmt;                  (* void checkTypes(const ParametersSet& reference) const *)
+  ct_add : cstmt;                          (* void add(const Parameter& p) *)
+  ct_merge : cstmt;                        (* void merge(const ParametersSet& pg) *)
+  ct_index : cstmt;                        (* Parameter operator[](const std::string& name) const *)
+  ct_comma_set : list ccall;               (* ParametersSet& ParametersSet::operator,(const Parameter& p): on *this *)
+  ct_comma_param : cinit * list ccall;     (* ParametersSet Parameter::operator,(const Parameter& p) *)
+  ct_to_set : cinit * list ccall           (* Parameter::operator ParametersSet() *)
+}.
+
+Definition env_param (p : kwid * value) : cenv :=
+  {| ce_key := Some (fst p); ce_val := Some (snd p); ce_argmap := []; ce_each := None |}.
+Definition env_set (d : pmap) : cenv :=
+  {| ce_key := None; ce_val := None; ce_argmap := d; ce_each := None |}.
+Definition env_name (k : kwid) : cenv :=
+  {| ce_key := Some k; ce_val := None; ce_argmap := []; ce_each := None |}.
+
+Definition run_check (C : container) (s : pset) : cout := run_cstmt (ct_check C) s (env_set []).
+Definition run_check_types (C : container) (s : pset) (d : pmap) : cout := run_cstmt (ct_check_types C) s (env_set d).
+Definition run_add (C : container) (s : pset) (p : kwid * value) : cout := run_cstmt (ct_add C) s (env_param p).
+Definition run_merge (C : container) (s : pset) (d : pmap) : cout := run_cstmt (ct_merge C) s (env_set d).
+Definition run_index (C : container) (s : pset) (k : kwid) : cout := run_cstmt (ct_index C) s (env_name k).
+
+Fixpoint run_calls (C : container) (conv : kwid * value -> option pset) (calls : list ccall)
+  (this p : kwid * value) (s : pset) : option pset :=
+  match calls with
+  | [] => Some s
+  | c :: rest =>
+      let arg := fun a => match a with AThis => this | AParam => p end in
+      match c with
+      | CallAdd a =>
+          match run_add C s (arg a) with
+          | CNormal s' => run_calls C conv rest this p s'
+          | _ => None
+          end
+      | CallMergeSetOf a =>
+          match conv (arg a) with
+          | Some t =>
+              match run_merge C s (ps_map t) with
+              | CNormal s' => run_calls C conv rest this p s'
+              | _ => None
+              end
+          | None => None
+          end
+      end
+  end.
+
+(* (ParametersSet) a *)
+Definition to_set_of (C : container) (a : kwid * value) : option pset :=
+  match ct_to_set C with
+  | (InitEmpty, calls) => run_calls C (fun _ => None) calls a a ps_empty
+  | (InitThis, _) => None
+  end.
+
+(* (a, b) for two parameters *)
+Definition comma_param_of (C : container) (a b : kwid * value) : option pset :=
+  match (match fst (ct_comma_param C) with InitEmpty => Some ps_empty | InitThis => to_set_of C a end) with
+  | Some s0 => run_calls C (to_set_of C) (snd (ct_comma_param C)) a b s0
+  | None => None
+  end.
+
+(* (s, p) for a set and a parameter *)
+Definition comma_set_of (C : container) (s : pset) (p : kwid * value) : option pset :=
+  run_calls C (to_set_of C) (ct_comma_set C) p p s.
+
+(* the comma expression (a, b, c, ...) as C++ parses it: ((a, b), c), ... *)
+Definition comma_expression (C : container) (kws : list (kwid * value)) : option pset :=
+  match kws with
+  | [] => Some ps_empty
+  | [a] => to_set_of C a
+  | a :: b :: rest =>
+      fold_left (fun acc p => match acc with Some s => comma_set_of C s p | None => None end)
+                rest (comma_param_of C a b)
+  end.
